@@ -8,7 +8,10 @@ THEOREMS = ["Mmtk.Sched.open_only_when_quiescent", "Mmtk.Sched.first_stw_opened_
             "Mmtk.Sched.quiescent_at_end", "Mmtk.Sched.start_removes", "Mmtk.Sched.exactly_once_partial",
             "Mmtk.Sched.packet_conservation", "Mmtk.Sched.gc_end_accounting", "Mmtk.Sched.step_invK",
             "Mmtk.Sched.generated_wf", "Mmtk.Sched.onLastParked_opens", "Mmtk.Sched.onLastParked_gc_end",
-            "Mmtk.Sched.updateLoop_opens", "Mmtk.Sched.step_other"]
+            "Mmtk.Sched.updateLoop_opens", "Mmtk.Sched.step_other",
+            "Mmtk.Sched.exactly_once", "Mmtk.Sched.ids_partition", "Mmtk.Sched.ids_nodup",
+            "Mmtk.Sched.ids_classes_disjoint", "Mmtk.Sched.ids_complete", "Mmtk.Sched.runs_at_most_once",
+            "Mmtk.Sched.ended_stable", "Mmtk.Sched.step_invU"]
 KEYS = S.COMMON_KEYS + ("sched:not-quiescent", "sched:open-while-unparked", "sched:open-before-drained",
                         "sched:closed-nonempty", "sched:poll-closed-bucket", "sched:packet-twice", "sched:packet-never-run",
                         "sched:nested-start", "sched:end-without-start", "sched:start-without-poll",
